@@ -4,6 +4,8 @@ import TucanProofs.Lemmas.WriteRead
 import TucanProofs.Examples
 import TucanProofs.Lemmas.WriteReadAny
 import TucanProofs.Lemmas.Chain
+import TucanProofs.Lemmas.ChainTotal
+import TucanProofs.Lemmas.WrittenIsV3000
 /-!
 # C09 — written molfiles read back as the same molecule, at any line length
 
@@ -56,6 +58,39 @@ theorem C09_write_read_any_listing (g : Graph) (hw : g.WF) (hs : g.Simple)
           ∃ d, (g.nodes[j].id, d) ∈ g.nbrsD g.nodes[i].id ∧ d.btype.getD 1 = bt) :=
   write_read_any_listing g hw hs hlab hatoms hbonds hsize hdr hh
 
+/-- **No other bond appears**: every adjacency record of the graph read back has the form `{ btype := some bt }`
+— so the bond conclusion of `C09_write_read` / `C09_write_read_any_listing`, which characterises the records of
+that form, characterises all of them. -/
+theorem C09_bond_records (g : Graph) (hw : g.WF) (hs : g.Simple)
+    (hlab : g.labels.Perm (List.range g.numberOfNodes))
+    (hatoms : ∀ n ∈ g.nodes, WritableAtom n)
+    (hbonds : ∀ n ∈ g.nodes, ∀ e ∈ n.nbrs, ∀ bt, e.2.btype = some bt → (intRepr bt).length ≤ intMaxStrDigits)
+    (hsize : (natRepr (g.numberOfNodes + g.numberOfEdges + 1)).length ≤ intMaxStrDigits)
+    (hdr : Str) (hh : GoodHeader hdr) (lines : List Str) (g' : Graph)
+    (hwr : graphToMolfileLines g hdr = .ok lines) (hrd : graphFromMolfileText (joinLines lines) = .ok g') :
+    ∀ (i j : Nat) (d' : Bond), (j, d') ∈ g'.nbrsD i → ∃ bt : Int, d' = { btype := some bt } :=
+  write_read_bond_records g hw hs hlab hatoms hbonds hsize hdr hh lines g' hwr hrd
+
+/-- **What the writer writes is a well-formed V3000 connection table**, independently of any reader: the written
+lines are a V3000 file as `IsV3000File` — the hypothesis bundle of C07's specification theorem — defines one (four
+header lines, `BEGIN CTAB`, a counts line carrying the numbers of atom and bond lines, `BEGIN ATOM`, one well-formed
+atom line per atom, `END ATOM`, the bond block unless there is no bond, a tail ending in `M  END`; every logical line
+wrapped with a trailing dash), with exactly the entries `writtenAtom n` per node in listing order (index = label + 1,
+symbol, three coordinate tokens, `0`, then `CHG=` / `RAD=` / `MASS=` for the values present) and `writtenBond` per
+reported edge (running number, type, the two atom indices); its fourth line ends in `V3000`; no line contains a line
+break.  So every statement C07 proves about such files applies to the writer's output. -/
+theorem C09_written_is_v3000_file (g : Graph) (hw : g.WF)
+    (hlab : g.labels.Perm (List.range g.numberOfNodes))
+    (hatoms : ∀ n ∈ g.nodes, WritableAtom n)
+    (hbonds : ∀ n ∈ g.nodes, ∀ e ∈ n.nbrs, ∀ bt, e.2.btype = some bt → (intRepr bt).length ≤ intMaxStrDigits)
+    (hsize : (natRepr (g.numberOfNodes + g.numberOfEdges + 1)).length ≤ intMaxStrDigits)
+    (hdr : Str) (hh : GoodHeader hdr) (lines : List Str)
+    (hwr : graphToMolfileLines g hdr = .ok lines) :
+    IsV3000File lines (g.nodes.map writtenAtom) (g.edges.zipIdx.map writtenBond) ∧
+    (∀ l3, lines[3]? = some l3 → EndsInWord l3 (cs "V3000")) ∧
+    (∀ l ∈ lines, WR.NoBreak l) :=
+  written_isV3000File g hw hlab hatoms hbonds hsize hdr hh lines hwr
+
 /-- **The graph read back is the written molecule**: for a molecule graph listed in any order, writing and
 reading back gives a graph related to it by `Iso SameIdent` (atom ↦ its listing position), hence with the same
 TUCAN string. -/
@@ -84,6 +119,24 @@ theorem C09_string_molfile_string (O : CanonOracle) (g0 : Graph) (hw0 : g0.WF) (
     (s' : Str) (h' : tucanOf O.order g' = .ok s') : s' = s :=
   string_molfile_string O g0 hw0 hs0 hmol0 hsize0 s h0 H hp hatoms hbonds hsize hdr hh lines g' hwr hrd s' h'
 
+/-- **… with existence.**  Of the parsed graph only the radical range (a molfile cannot state a radical above 3)
+and two width guards (bond-type numerals and the counts, CPython's integer-conversion limit) are assumed.  That
+every atom of the parsed graph is writable, that writing returns, that reading the written file returns, that the
+pipeline returns on what was read, and that it returns `s`, are conclusions. -/
+theorem C09_string_molfile_string_total (O : CanonOracle) (g0 : Graph) (hw0 : g0.WF) (hs0 : g0.Simple)
+    (hne0 : g0.labels ≠ []) (hmol0 : g0.MolAtoms)
+    (hsize0 : (natRepr (g0.numberOfNodes + 1)).length ≤ intMaxStrDigits)
+    (s : Str) (h0 : tucanOf O.order g0 = .ok s)
+    (H : Graph) (hp : graphFromTucan s = .ok H)
+    (hrad : ∀ n ∈ H.nodes, ∀ r, n.attrs.rad = some r → r ≤ 3)
+    (hbonds : ∀ n ∈ H.nodes, ∀ e ∈ n.nbrs, ∀ bt, e.2.btype = some bt → (intRepr bt).length ≤ intMaxStrDigits)
+    (hsize : (natRepr (H.numberOfNodes + H.numberOfEdges + 1)).length ≤ intMaxStrDigits)
+    (hdr : Str) (hh : GoodHeader hdr) :
+    (∀ n ∈ H.nodes, WritableAtom n) ∧
+    ∃ lines g', graphToMolfileLines H hdr = .ok lines ∧ graphFromMolfileText (joinLines lines) = .ok g' ∧
+      tucanOf O.order g' = .ok s :=
+  string_molfile_string_total O g0 hw0 hs0 hne0 hmol0 hsize0 s h0 H hp hrad hbonds hsize hdr hh
+
 /-- **No line is longer than 80 characters including the newline**, for logical lines of every length. -/
 theorem C09_line_length (line : Str) : ∀ p ∈ addV30Line line, p.length ≤ 79 := addV30Line_length_le line
 
@@ -108,7 +161,6 @@ keyword is picked up (no element symbol, index or coordinate token is mistaken f
 theorem C09_atom_line_roundtrip (n : Node) (sym : Str) (hsym : n.attrs.sym = some sym) (hel : sym ∈ elementSyms)
     (hx : ∀ t ∈ [n.attrs.x.getD zeroCoord, n.attrs.y.getD zeroCoord, n.attrs.zc.getD zeroCoord],
       IsToken t ∧ pyFloatOk t = true)
-    (hid : (natRepr (n.id + 1)).length ≤ intMaxStrDigits)
     (hchg : ∀ c, n.attrs.chg = some c → c ≠ 0 ∧ -15 ≤ c ∧ c ≤ 15)
     (hrad : ∀ r, n.attrs.rad = some r → 0 < r ∧ r ≤ 3)
     (hmass : ∀ m, n.attrs.mass = some m → 0 < m ∧ (intRepr m).length ≤ intMaxStrDigits) :
@@ -119,7 +171,7 @@ theorem C09_atom_line_roundtrip (n : Node) (sym : Str) (hsym : n.attrs.sym = som
                     x := some (n.attrs.x.getD zeroCoord), y := some (n.attrs.y.getD zeroCoord),
                     zc := some (n.attrs.zc.getD zeroCoord),
                     chg := n.attrs.chg, rad := n.attrs.rad, mass := n.attrs.mass }) :=
-  atomLine_roundtrip n sym hsym hel hx hid hchg hrad hmass
+  atomLine_roundtrip n sym hsym hel hx hchg hrad hmass
 
 /-- index and count fields: `int(str(n)) = n` -/
 theorem C09_int_roundtrip (n : Nat) (h : (natRepr n).length ≤ intMaxStrDigits) : pyInt (natRepr n) = .ok (n : Int) :=
@@ -131,5 +183,15 @@ example : (addV30Line (List.replicate 100 'x')).length = 2 ∧
   constructor
   · rw [addV30Line]; simp; rw [addV30Line]; simp
   · decide
+
+/-- non-vacuity of `C09_write_read_any_listing` / `C09_write_read_same_string` / `C09_bond_records`: the graph of
+`Examples.lean` (three atoms listed in the order 2, 0, 1, an isotope label, a charge, a double bond) and the
+header `  TUCAN` meet every hypothesis -/
+example : exGraph.WF ∧ exGraph.Simple ∧ exGraph.labels.Perm (List.range exGraph.numberOfNodes) ∧
+    (∀ n ∈ exGraph.nodes, WritableAtom n) ∧
+    (∀ n ∈ exGraph.nodes, ∀ e ∈ n.nbrs, ∀ bt, e.2.btype = some bt → (intRepr bt).length ≤ intMaxStrDigits) ∧
+    (natRepr (exGraph.numberOfNodes + exGraph.numberOfEdges + 1)).length ≤ intMaxStrDigits ∧
+    GoodHeader "  TUCAN".toList :=
+  ⟨exGraph_wf, exGraph_simple, exGraph_writable⟩
 
 end Tucan
